@@ -387,7 +387,11 @@ def run_ob(work, ob, idx):
     r.witness = bool(wit) or ob.no_witness
     r.failed = real
     r.prog = prog
-    if real:
+    unw = [p for p in real if ".unwind." in p.get("property", "")]
+    if unw:
+        r.status = "inconclusive"
+        r.reason = "unwinding bound too small: " + "; ".join(p["property"] for p in unw[:6])
+    elif real:
         r.status = "violation"
         r.reason = "; ".join("%s: %s" % (p["property"], p["description"]) for p in real[:5])
     elif not r.witness:
@@ -540,11 +544,8 @@ def make_replay(work, ob, res, rdir):
     objs = []
     exe = os.path.join(rdir, "replay.exe")
     srcs = [harness_path(ob.harness)] + [os.path.join(SRC, u) for u in ob.units]
-    if ob.replay_real:
-        skip = set(ob.units)
-    else:
-        srcs += [os.path.join(VERIF, "stubs", s) for s in ob.stubs]
-        skip = set(ob.units)
+    srcs += [os.path.join(VERIF, "stubs", s) for s in ob.stubs]
+    skip = set(ob.units)
     cmds = []
     for i, s in enumerate(srcs):
         o = os.path.join(rdir, "o%d.o" % i)
